@@ -80,20 +80,22 @@ Layouts(d) == {<<IdP(d), IdP(d)>>} \cup {<<pm, IdP(d)>> : pm \in Perms(d)}      
               \cup (IF TrOnly THEN {<<IdP(d), pm>> : pm \in Perms(d)} ELSE {})
 Plain(lay, d) == lay = <<IdP(d), IdP(d)>>
 OnCoords(sh, q) == \A d \in 1..Len(sh) : IsNone(q[d]) \/ (Some(q[d]) % Tk = 0 /\ Some(q[d]) >= 0 /\ Some(q[d]) <= Tk * (sh[d] - 1))
-NoCoord(sh, q) == {<<>>} \cup {<<d>> : d \in {e \in 1..Len(sh) : IsNone(q[e])}}
+NoCoord(sh) == {<<>>} \cup {<<d>> : d \in 1..Len(sh)}
 \* the new dimensions are explored on a sub-universe: first unit, float64, queries on coordinates
-SetCaseOK(x) == /\ ~NoneQueried(x.q) /\ (x.vm = "array" => ~AllQueried(x.q))
+SetCaseOK(x) == /\ (~IsNone(x.nc) => IsNone(x.q[Some(x.nc)]))                 \* only an unqueried dimension can lack its coordinate
+                /\ ~NoneQueried(x.q) /\ (x.vm = "array" => ~AllQueried(x.q))
                 /\ (~Plain(<<x.reg, x.tr>>, Len(x.sh)) => x.s = UnitList[1] /\ x.dt = "f8" /\ IsNone(x.nc) /\ OnCoords(x.sh, x.q))
                 /\ (x.dt # "f8" => Plain(<<x.reg, x.tr>>, Len(x.sh)) /\ x.s = UnitList[1] /\ Len(x.sh) <= 2 /\ IsNone(x.nc))
                 /\ (~IsNone(x.nc) => Plain(<<x.reg, x.tr>>, Len(x.sh)) /\ x.s = UnitList[1] /\ x.dt = "f8" /\ OnCoords(x.sh, x.q))
+\* (a filtered set, not a conjunct of Init: TLC would enumerate the disjunctions of the filter as branches)
+SetCasesFor(s, sh, dt) ==
+    {x \in {[kind |-> "set", s |-> s, dt |-> dt, sh |-> sh, q |-> q, vm |-> vm, reg |-> lay[1], tr |-> lay[2], nc |-> nc] :
+               q \in Queries(sh), vm \in {"scalar", "array"}, lay \in Layouts(Len(sh)), nc \in NoCoord(sh)} : SetCaseOK(x)}
 R0 == [len |-> 0, k |-> "none", v |-> -1, ix |-> <<>>, hit |-> TRUE, after |-> <<>>]
 Init == /\ pc = "start" /\ i = 0
         /\ \/ c \in RangeCases
            \/ c \in IndexCases
-           \/ \E s \in SetUnits, sh \in Shapes, dt \in {"f8", "i8", "i4"} :
-              \E q \in Queries(sh), vm \in {"scalar", "array"}, lay \in Layouts(Len(sh)), nc \in NoCoord(sh, q) :
-                 /\ c = [kind |-> "set", s |-> s, dt |-> dt, sh |-> sh, q |-> q, vm |-> vm, reg |-> lay[1], tr |-> lay[2], nc |-> nc]
-                 /\ SetCaseOK(c)
+           \/ \E s \in SetUnits, sh \in Shapes, dt \in {"f8", "i8", "i4"} : c \in SetCasesFor(s, sh, dt)
         /\ r = IF c.kind = "set" THEN [R0 EXCEPT !.ix = [k \in 1..Len(c.sh) |-> <<>>]] ELSE R0
 
 (* ------------------------------------------------------------ range: Impl *)
